@@ -54,6 +54,7 @@ Code(t) == prog[t]
 AllOps == UNION {{Code(t)[i] : i \in 1..Len(Code(t))} : t \in Thr}
 Atoms == {i.o : i \in {j \in AllOps : j.op \in {"ld", "st"}}}
 Mtxs == {i.o : i \in {j \in AllOps : j.op \in {"lock", "unlock", "trylock", "tunlock"}}}
+Rws == {i.o : i \in {j \in AllOps : j.op \in {"read", "write", "tryread", "trywrite", "unlockr", "unlockw", "tunlockr", "tunlockw"}}}
 Ntfs == {i.o : i \in {j \in AllOps : j.op = "ntf"}}         \* the Notify of a JoinHandle: notified once, by the ending thread
 Chans == {i.o : i \in {j \in AllOps : j.op \in {"send", "recv", "tryrecv", "droprx"}}}
 Arcs == {i.o : i \in {j \in AllOps : j.op \in {"aclone", "adrop", "acount"}}}
@@ -92,7 +93,8 @@ Ex0 == [pc |-> [t \in Thr |-> 1],
         active |-> 1,
         val |-> [o \in Atoms |-> 0],
         holder |-> [m \in Mtxs |-> 0],
-        la |-> [o \in Atoms \cup Mtxs \cup Ntfs |-> NoAcc],          \* last_access
+        rw |-> [l \in Rws |-> [w |-> 0, r |-> {}]],         \* RwLock: writer, set of readers
+        la |-> [o \in Atoms \cup Mtxs \cup Ntfs \cup Rws |-> NoAcc],  \* last_access
         ls |-> [o \in Atoms |-> NoAcc],                      \* last_non_load_access
         ll |-> [o \in Atoms |-> [t \in Thr |-> NoAcc]],      \* last_load_accesses
         acc |-> [k \in SlotKeys |-> NoAcc],                 \* channel / Arc access slots
@@ -110,6 +112,11 @@ Release(e, a, m) ==
   [e EXCEPT !.holder[m] = 0,
             !.st = [t \in Thr |-> IF t # a /\ e.op[t].o = m THEN "runnable" ELSE e.st[t]]]
 
+\* RwLock::release_read_lock / release_write_lock: waiters are woken when the lock becomes free
+WakeRw(e, a, l) == [e EXCEPT !.st = [t \in Thr |-> IF t # a /\ e.op[t].o = l THEN "runnable" ELSE e.st[t]]]
+ReleaseR(e, a, l) == LET e1 == [e EXCEPT !.rw[l].r = @ \ {a}] IN IF e1.rw[l].r = {} THEN WakeRw(e1, a, l) ELSE e1
+ReleaseW(e, a, l) == WakeRw([e EXCEPT !.rw[l].w = 0], a, l)
+
 \* the active thread runs up to its next scheduling point: unlocks are executed on the way
 RECURSIVE RunToBranch(_, _)
 RunToBranch(e, a) ==
@@ -118,6 +125,12 @@ RunToBranch(e, a) ==
        IF ins.op = "unlock" THEN RunToBranch([Release(e, a, ins.o) EXCEPT !.pc[a] = @ + 1], a)
        ELSE IF ins.op = "tunlock"
             THEN RunToBranch([(IF e.holder[ins.o] = a THEN Release(e, a, ins.o) ELSE e) EXCEPT !.pc[a] = @ + 1], a)
+       ELSE IF ins.op = "unlockr" THEN RunToBranch([ReleaseR(e, a, ins.o) EXCEPT !.pc[a] = @ + 1], a)
+       ELSE IF ins.op = "unlockw" THEN RunToBranch([ReleaseW(e, a, ins.o) EXCEPT !.pc[a] = @ + 1], a)
+       ELSE IF ins.op = "tunlockr"
+            THEN RunToBranch([(IF a \in e.rw[ins.o].r THEN ReleaseR(e, a, ins.o) ELSE e) EXCEPT !.pc[a] = @ + 1], a)
+       ELSE IF ins.op = "tunlockw"
+            THEN RunToBranch([(IF e.rw[ins.o].w = a THEN ReleaseW(e, a, ins.o) ELSE e) EXCEPT !.pc[a] = @ + 1], a)
        \* loom::stop_exploring / explore / skip_branch act on the path at once; no scheduling point
        ELSE IF ins.op \in {"stopx", "explore", "skipb"}
             THEN RunToBranch([e EXCEPT !.ctl = Append(@, ins.op), !.pc[a] = @ + 1], a)
@@ -146,6 +159,8 @@ Arrive(e0, a) ==
   ELSE LET ins == Code(a)[e.pc[a]] IN
        CASE ins.op = "yield" -> [e EXCEPT !.op[a] = NoOp, !.st[a] = "yield", !.yc[a] = @ + 1, !.pc[a] = @ + 1]
          [] ins.op = "lock"  -> [e EXCEPT !.op[a] = ins, !.st[a] = IF e.holder[ins.o] # 0 THEN "blocked" ELSE @]
+         [] ins.op = "read"  -> [e EXCEPT !.op[a] = ins, !.st[a] = IF e.rw[ins.o].w # 0 THEN "blocked" ELSE @]
+         [] ins.op = "write" -> [e EXCEPT !.op[a] = ins, !.st[a] = IF e.rw[ins.o].w # 0 \/ e.rw[ins.o].r # {} THEN "blocked" ELSE @]
          [] ins.op = "recv"  -> [e EXCEPT !.op[a] = ins, !.st[a] = IF e.chq[ins.o] = <<>> THEN "blocked" ELSE @]
          [] ins.op = "droprx" -> [e EXCEPT !.op[a] = [op |-> "drain", o |-> ins.o]]       \* non-empty (RunToBranch)
          [] ins.op = "park"  -> [e EXCEPT !.op[a] = NoOp, !.st[a] = "blocked", !.parked[a] = TRUE, !.pc[a] = @ + 1]
@@ -246,6 +261,18 @@ Perform(e, t) ==
     [] ins.op = "trylock" -> IF e.holder[ins.o] # 0 THEN [e EXCEPT !.regs[t] = Append(@, 0), !.pc[t] = @ + 1]
                              ELSE [Acquire(e, t, ins.o) EXCEPT !.regs[t] = Append(@, 1), !.pc[t] = @ + 1]
     [] ins.op = "ntf"     -> [e EXCEPT !.pc[t] = @ + 1]
+    \* RwLock::post_acquire_read_lock: pending writers are blocked; post_acquire_write_lock: everybody pending on the lock
+    [] ins.op \in {"read", "tryread"} ->
+         IF e.rw[ins.o].w # 0 THEN [e EXCEPT !.regs[t] = Append(@, 0), !.pc[t] = @ + 1]          \* only try_read gets here
+         ELSE [e EXCEPT !.rw[ins.o].r = @ \cup {t}, !.pc[t] = @ + 1,
+                        !.regs[t] = IF ins.op = "tryread" THEN Append(@, 1) ELSE @,
+                        !.st = [u \in Thr |-> IF u # t /\ e.op[u].o = ins.o /\ e.op[u].op \in {"write", "trywrite"}
+                                              THEN "blocked" ELSE e.st[u]]]
+    [] ins.op \in {"write", "trywrite"} ->
+         IF e.rw[ins.o].w # 0 \/ e.rw[ins.o].r # {} THEN [e EXCEPT !.regs[t] = Append(@, 0), !.pc[t] = @ + 1]
+         ELSE [e EXCEPT !.rw[ins.o].w = t, !.pc[t] = @ + 1,
+                        !.regs[t] = IF ins.op = "trywrite" THEN Append(@, 1) ELSE @,
+                        !.st = [u \in Thr |-> IF u # t /\ e.op[u].o = ins.o THEN "blocked" ELSE e.st[u]]]
     \* Channel::send: nothing is queued once the receiver is gone; the first message wakes the receiver
     [] ins.op = "send"    -> IF e.closed[ins.o] THEN [e EXCEPT !.pc[t] = @ + 1]
                              ELSE [e EXCEPT !.chq[ins.o] = Append(@, StVal(t, e.pc[t])), !.pc[t] = @ + 1,
@@ -268,7 +295,7 @@ HasCtl == \E i \in AllOps : i.op \in CtlOps
 \* inside the region" is can only be said in terms of loom's scheduling points, so there (and only there) the
 \* reference executes them together with the step before them, as loom does; without controls they are steps of
 \* their own (the semantics of the primitives: another thread may run between the last access and the unlock)
-NbOps == IF HasCtl THEN {"unlock", "tunlock", "unpark"} ELSE {}
+NbOps == IF HasCtl THEN {"unlock", "tunlock", "unlockr", "unlockw", "tunlockr", "tunlockw", "unpark"} ELSE {}
 
 \* one operation of thread t in state c (the reference semantics of the primitives)
 ExecRef(c, t) ==
@@ -280,6 +307,15 @@ ExecRef(c, t) ==
     [] i.op = "trylock" -> IF c.holder[i.o] # 0 THEN [s1 EXCEPT !.regs[t] = Append(@, 0)]
                            ELSE [s1 EXCEPT !.holder[i.o] = t, !.regs[t] = Append(@, 1)]
     [] i.op = "tunlock" -> IF c.holder[i.o] = t THEN [s1 EXCEPT !.holder[i.o] = 0] ELSE s1
+    [] i.op = "read"    -> [s1 EXCEPT !.rw[i.o].r = @ \cup {t}]
+    [] i.op = "write"   -> [s1 EXCEPT !.rw[i.o].w = t]
+    [] i.op = "tryread" -> IF c.rw[i.o].w # 0 THEN [s1 EXCEPT !.regs[t] = Append(@, 0)]
+                           ELSE [s1 EXCEPT !.rw[i.o].r = @ \cup {t}, !.regs[t] = Append(@, 1)]
+    [] i.op = "trywrite" -> IF c.rw[i.o].w # 0 \/ c.rw[i.o].r # {} THEN [s1 EXCEPT !.regs[t] = Append(@, 0)]
+                            ELSE [s1 EXCEPT !.rw[i.o].w = t, !.regs[t] = Append(@, 1)]
+    [] i.op \in {"unlockr", "tunlockr"} -> [s1 EXCEPT !.rw[i.o].r = @ \ {t}]
+    [] i.op = "unlockw" -> [s1 EXCEPT !.rw[i.o].w = 0]
+    [] i.op = "tunlockw" -> IF c.rw[i.o].w = t THEN [s1 EXCEPT !.rw[i.o].w = 0] ELSE s1
     [] i.op = "send"    -> IF c.closed[i.o] THEN s1 ELSE [s1 EXCEPT !.chq[i.o] = Append(@, StVal(t, c.pc[t]))]
     [] i.op = "recv"    -> [s1 EXCEPT !.regs[t] = Append(@, Head(c.chq[i.o])), !.chq[i.o] = Tail(@)]
     [] i.op = "tryrecv" -> IF c.chq[i.o] = <<>> THEN [s1 EXCEPT !.regs[t] = Append(@, 0)]
@@ -317,6 +353,8 @@ RefFrom(s) ==
                              /\ c.pc[t] <= Len(Code(t)) =>
                                   LET i == Code(t)[c.pc[t]] IN
                                   /\ i.op = "lock" => s.holder[i.o] = 0
+                                  /\ i.op = "read" => s.rw[i.o].w = 0
+                                  /\ i.op = "write" => (s.rw[i.o].w = 0 /\ s.rw[i.o].r = {})
                                   /\ i.op = "recv" => s.chq[i.o] # <<>>
                                   /\ i.op = "park" => s.tok[t]}
       StepOf(t) == LET c == Cur(t) IN
@@ -328,7 +366,7 @@ RefFrom(s) ==
   IN IF Live = {} THEN {[end |-> "ok", regs |-> s.regs]}
      ELSE IF En = {} THEN {[end |-> "deadlock", regs |-> <<>>]}
      ELSE UNION {RefFrom(StepOf(t)) : t \in Pick}
-RefOutcomes == RefFrom([pc |-> Ex0.pc, val |-> Ex0.val, holder |-> Ex0.holder, regs |-> Ex0.regs,
+RefOutcomes == RefFrom([pc |-> Ex0.pc, val |-> Ex0.val, holder |-> Ex0.holder, rw |-> Ex0.rw, regs |-> Ex0.regs,
                         chq |-> Ex0.chq, closed |-> Ex0.closed, cnt |-> Ex0.cnt, tok |-> Ex0.tok,
                         last |-> 1, frozen |-> FALSE, skipped |-> FALSE])
 NOps == LET RECURSIVE Sum(_) Sum(t) == IF t > N THEN 0 ELSE Len(Code(t)) + Sum(t + 1) IN Sum(1)
